@@ -375,7 +375,11 @@ func (e *Engine) discharge(obls []*Obligation, workDir string, timeoutS int, all
 				o.Result = &solverResult{Status: "error", Output: err.Error()}
 				return
 			}
-			r, allr := solve(p, timeoutS, all)
+			to := timeoutS
+			if (o.Canary || o.Cover) && to > 4 {
+				to = 4 // expected not to be unsat: do not wait long for it
+			}
+			r, allr := solve(p, to, all)
 			o.Result = &r
 			o.All = allr
 			o.queryFile = p
